@@ -146,6 +146,9 @@ def run_tlc(module: str, cfg_text: str, *, workers: int | str = 'auto',
             res.ok = True
         else:
             i = out.find('Error:')
+            k = out.find('Semantic errors')
+            if k >= 0:
+                i = k
             j = out.find('Error: The error occurred')
             msg = out[i:i + 1500] if i >= 0 else ''
             if j >= 0:
